@@ -147,6 +147,12 @@ func (b *builder) base(o baseOpt) {
 			}
 		}
 		c.Broadcast = pick(r, "", b.prefix+".255:60000", b.prefix+".255:60000", "255.255.255.255:60000", b.prefix+".255:60005")
+		if c.Broadcast != "" && r.Intn(12) == 0 {
+			// the same address as a program gets it from a net.UDPAddr: in its IPv4-mapped form
+			if ap, err := netip.ParseAddrPort(c.Broadcast); err == nil {
+				c.Broadcast = netip.AddrPortFrom(netip.AddrFrom16(ap.Addr().As16()), ap.Port()).String()
+			}
+		}
 		c.Listen = fmt.Sprintf("%s:%d", pick(r, "0.0.0.0", sc.HostIP), 60010+i)
 		c.Debug = debug
 		if r.Intn(8) == 0 {
@@ -178,8 +184,9 @@ func (b *builder) base(o baseOpt) {
 						d.Addr = k.ip + ":60001"
 					}
 				case 4:
-					if c.Broadcast != "" && r.Intn(2) == 0 {
-						d.Addr = c.Broadcast // listed at the very address the client broadcasts to: an address like any other
+					if ap, err := netip.ParseAddrPort(c.Broadcast); err == nil && r.Intn(2) == 0 {
+						// listed at the very address the client broadcasts to: an address like any other
+						d.Addr = netip.AddrPortFrom(ap.Addr().Unmap(), ap.Port()).String()
 					}
 				}
 			}
